@@ -1,4 +1,4 @@
-(* C05/Model.v — the value of a halo column according to the generated loader table (no proofs).
+(* HaloTable/Values.v (shared by C05 and C02) — the value of a halo column according to the generated loader table (no proofs).
 
    A column's expression may read other unpacked columns (halos[..]); the generated table has depth 1
    ([depth_ok], checked in Proofs.v), so two levels of evaluation are enough: a read below that yields 0 / NUninit.
@@ -6,7 +6,7 @@
    columns are float32 (= exact) values. *)
 From Coq Require Import ZArith QArith Reals Qreals List Bool.
 From Abacus.Common Require Import Num.
-From Abacus.C05 Require Import Expr Gen.
+From Abacus.HaloTable Require Import Expr Gen.
 Import ListNotations.
 
 (* unit valuations *)
